@@ -78,6 +78,14 @@ def _key_atoms(ctx, fn, e, at, depth=0) -> set:
         return _key_atoms(ctx, fn, e.body, at, depth + 1) | _key_atoms(ctx, fn, e.orelse, at, depth + 1)
     if isinstance(e, ast.Constant):
         return set()
+    if isinstance(e, ast.JoinedStr):          # f"{self.name}_{n}"
+        out = set()
+        for x in e.values:
+            if isinstance(x, ast.FormattedValue):
+                out |= _key_atoms(ctx, fn, x.value, at, depth + 1)
+        return out
+    if isinstance(e, ast.BinOp) and isinstance(e.op, ast.Add):   # tuple / string concatenation
+        return _key_atoms(ctx, fn, e.left, at, depth + 1) | _key_atoms(ctx, fn, e.right, at, depth + 1)
     if isinstance(e, ast.Name):
         ds = list(ctx.flow(fn).defs(e.id, at))
         if ds and all(d.kind == "param" for d in ds):
